@@ -1004,3 +1004,40 @@ func kindBackoffExprs(x *Ctx, it Item) {
 	x.Printf("Definition %s_a (temp jitter : Q) : Q :=\n  %s.\n", name, qExpr(f, a, what))
 	x.Printf("Definition %s_n (temp jitter : Q) : Q :=\n  %s.\n\n", name, qExpr(f, n, what))
 }
+
+// statuscmps: every comparison `<x>.StatusCode <op> <status constant>` inside function <func>, in
+// source order -> Definition <coq> : list (Z * Z)  (operator code: 0 ==, 1 !=, 2 <, 3 <=, 4 >, 5 >=;
+// status).  The model reads the statuses it depends on (challenge 401, upload accepted 202, token
+// 200 ...) from these lists, so an edited constant or an added/removed comparison shows up.
+func init() { kinds["statuscmps"] = kindStatusCmps }
+
+func kindStatusCmps(x *Ctx, it Item) {
+	what := it.File + ":" + it.Recv + "." + it.Func
+	fd := findFunc(x.File(it.File), it.Recv, it.Func)
+	if fd == nil {
+		fail("%s: function not found", what)
+	}
+	opCode := map[token.Token]int{token.EQL: 0, token.NEQ: 1, token.LSS: 2, token.LEQ: 3, token.GTR: 4, token.GEQ: 5}
+	var items []string
+	ast.Inspect(fd.Body, func(n ast.Node) bool {
+		be, ok := n.(*ast.BinaryExpr)
+		if !ok {
+			return true
+		}
+		sel, ok := be.X.(*ast.SelectorExpr)
+		if !ok || sel.Sel.Name != "StatusCode" {
+			return true
+		}
+		code, okc := opCode[be.Op]
+		v, okv := statusOperand(be.Y, "\x00", what)
+		if !okc || !okv {
+			fail("%s: a StatusCode comparison has an unsupported shape", what)
+		}
+		items = append(items, fmt.Sprintf("(%d, %s)%%Z", code, v))
+		return true
+	})
+	if len(items) == 0 {
+		fail("%s: no StatusCode comparison", what)
+	}
+	x.Printf("(* %s: StatusCode comparisons in source order (operator code, status) *)\nDefinition %s : list (Z * Z) := [%s].\n\n", what, coqName(it), strings.Join(items, "; "))
+}
